@@ -29,12 +29,31 @@ var c06ClueWords = []string{"change", "modify", "open", "editor", "archive", "ar
 
 var c06HintTools = []string{"tar", "zip", "gzip", "unzip", "7z", "mkdir", "rmdir", "find", "grep", "locate", "ls", "rm", "cp", "mv", "cat", "less", "ps", "kill", "top", "chmod", "chown", "curl", "wget", "df", "du", "touch", "ip", "ifconfig", "ping", "ssh", "apt", "brew", "sed", "awk", "tail", "head"}
 
+// c06ForceKind, when set, overrides the drawn query kind (set and cleared around one call).
+var c06ForceKind string
+
 func c06Query(t *rapid.T, cmds []database.Command) (string, string) {
 	toks := gen.Tokens(cmds)
 	fromDB := rapid.SampledFrom(append([]string{"zzqx"}, toks...))
 	word := rapid.OneOf(fromDB, fromDB, rapid.SampledFrom(c06NLPWords), gen.Word(), gen.UWord(false))
-	kind := rapid.SampledFrom([]string{"short", "short", "medium", "long", "punct", "near-cap", "near-cap", "long-built"}).Draw(t, "q-kind")
+	kind := rapid.SampledFrom([]string{"short", "short", "medium", "long", "punct", "near-cap", "near-cap", "long-built", "unknown-head", "unknown-head"}).Draw(t, "q-kind")
+	if c06ForceKind != "" {
+		kind = c06ForceKind
+	}
 	switch kind {
+	case "unknown-head":
+		// 7-10 distinct content words of which the first two to four occur nowhere in the database
+		// (names, typos, jargon), followed by action / target words and the database's own words -
+		// the commonest of them last: whatever budget the unknown words do or do not use up, every
+		// later word of the user still counts
+		head := rapid.SliceOfNDistinct(rapid.StringMatching(`zq[b-z]{3,6}`), 2, 4, func(s string) string { return s }).Draw(t, "unknown-words")
+		mid := rapid.SliceOfNDistinct(rapid.SampledFrom([]string{"compress", "show", "docker", "delete", "find", "folder", "download", "process", "extract", "install", "copy", "logs", "running", "edit", "search", "network"}), 1, 3, func(s string) string { return s }).Draw(t, "action-target-words")
+		tail := rapid.SliceOfNDistinct(fromDB, 2, 5, func(s string) string { return strings.ToLower(s) }).Draw(t, "db-words")
+		ws := append(append(head, mid...), tail...)
+		if len(ws) > 10 {
+			ws = ws[:10]
+		}
+		return strings.Join(ws, " "), kind
 	case "long-built":
 		// more than ten distinct content words: four database words first, then action / target words
 		// the language stage likes, then more database and unknown words
@@ -76,8 +95,22 @@ func TestC06_Retain(t *testing.T) {
 				cmds = append(cmds, database.Command{Command: h + " " + gen.Word().Draw(t, "hint-arg"), Description: h})
 			}
 		}
+		own := cmds // the database's own entries: what the user's later words are drawn from
+		fullPack := rapid.IntRange(0, 5).Draw(t, "full-language-pack") == 0
+		if fullPack {
+			// every tool the language stage may hint at and every word it may add is an indexed term, once
+			for _, h := range c06HintTools {
+				cmds = append(cmds, database.Command{Command: h + " tool", Description: "about " + h})
+			}
+			cmds = append(cmds, gen.LanguagePack()...)
+		}
 		db := gen.Load(t, cmds)
-		q, kind := c06Query(t, cmds)
+		q, kind := c06Query(t, own)
+		if fullPack && rapid.IntRange(0, 3).Draw(t, "unknown-head-query") > 0 {
+			c06ForceKind = "unknown-head"
+			q, kind = c06Query(t, own)
+			c06ForceKind = ""
+		}
 		if rapid.IntRange(0, 3).Draw(t, "respell") == 0 {
 			// the user's spelling may use any case form, incl. U+212A for k: both searches must cope
 			q, _ = respell(t, q)
